@@ -683,7 +683,7 @@ def case_cases():
     for dn in names:
         for rn in names:
             for u in (0, 1):
-                for kind in ('equ', 'label', 'set', 'section'):
+                for kind in ('equ', 'label', 'set', 'section', 'cmdline-D-first', 'cmdline-U-first'):
                     yield {'k': 'case', 'def': dn, 'ref': rn, 'U': u, 'kind': kind}
 
 
@@ -699,9 +699,14 @@ def ev_case(case):
     else:
         # section name in the qualifier: defined as section dn, referenced as x[rn]
         src = '\tcpu 8086\n\tsection %s\nx\tequ 5\n\torg 100h\n\tdw x[%s]\n\tendsection\n' % (dn, rn)
-    o, p = asm(src, ['-U'] if u else [])
+    opts = ['-U'] if u else []
+    if kind.startswith('cmdline'):
+        # the symbol comes from the command line: it is the same symbol wherever -U stands among the options
+        src = '\tcpu 8086\n\torg 100h\n\tdw %s\n' % rn
+        opts = (['-D', dn + '=5'] + opts) if kind == 'cmdline-D-first' else (opts + ['-D', dn + '=5'])
+    o, p = asm(src, opts)
     ck = core.crashkind(o)
-    d = '%s def %s ref %s %s' % (kind, dn, rn, '-U' if u else '')
+    d = '%s def %s ref %s %s' % (kind, dn, rn, ' '.join(opts))
     if ck:
         return core.R(False, ck, 'crash/' + ck, '%s on %s' % (ck, d))
     if same:
